@@ -1,3 +1,536 @@
-import Robust.Stream.OS
+import Robust.Stream.Inv
+/-!
+C08 — output stream next-message lookup: the invariant is preserved by every operation, `Get`
+refines a plain map, `GetNext`'s two phases meet their specification, and the system-level
+invariant holds over every interleaving of the lock regions.
+-/
 namespace Robust.Props.C08
+open Robust Robust.Stream
+
+theorem C08_inv_init : Inv OS.init := by
+  have hget : ∀ k b, SMap.get OS.init.db k = some b → k = 0 ∧ b = sentinel := by
+    intro k b hb
+    simp only [OS.init, SMap.get] at hb
+    split at hb
+    · rename_i hk; cases hb; exact ⟨hk.symm, rfl⟩
+    · cases hb
+  refine ⟨?_, ?_, ?_, ?_, ?_⟩
+  · simp [OS.init, SMap.Sorted, SMap.keys]
+  · intro k b hb; obtain ⟨rfl, rfl⟩ := hget k b hb; exact ⟨rfl, by decide⟩
+  · exact ⟨0, sentinel, rfl, rfl, rfl, rfl, rfl⟩
+  · intro k b hb; obtain ⟨rfl, rfl⟩ := hget k b hb
+    left; exact ⟨rfl, by simp [OS.init, SMap.keys]⟩
+  · intro k c hc; simp [OS.init, SMap.get] at hc
+
+theorem C08_inv_add (s s' : OS) (msgs : List Msg) (h : Inv s) (hok : AddOk s msgs)
+    (ha : s.add msgs = some s') : Inv s' := by
+  obtain ⟨m, lid, lb, hm, hlast, hlb, hlbm, hmax, hlt, hnn, hl', hc', hget, hkeys, hsorted⟩ :=
+    add_effect s s' msgs h hok ha
+  have hlidlt : lid < noNext := (h.keyId lid lb hlb).2
+  have hlidmem : lid ∈ SMap.keys s.db := SMap.get_some_mem _ _ _ hlb
+  have hnewid : (⟨msgs, noNext⟩ : Batch).id? = some m.id := by simp [Batch.id?, hm]
+  refine ⟨hsorted, ?_, ?_, ?_, ?_⟩
+  · intro k b hb
+    rw [hget] at hb
+    split at hb
+    · rename_i hk; subst hk; cases hb; exact ⟨hnewid, hnn⟩
+    · split at hb
+      · rename_i hk; subst hk; cases hb; exact ⟨hlast, hlidlt⟩
+      · exact h.keyId k b hb
+  · refine ⟨m.id, ⟨msgs, noNext⟩, ?_, ?_, ?_, rfl, ?_⟩
+    · apply SMap.getLast_of_max _ hsorted
+      · rw [hget, if_pos rfl]
+      · intro k' hk'
+        rw [hkeys] at hk'
+        rcases hk' with rfl | hk'
+        · exact Nat.le_refl _
+        · have := hmax k' hk'; omega
+    · rw [hl']; exact hnewid
+    · rw [hl']
+    · rw [hl']
+  · intro k b hb
+    rw [hget] at hb
+    split at hb
+    · rename_i hk; subst hk; cases hb
+      left
+      refine ⟨rfl, fun k' hk' => ?_⟩
+      rw [hkeys] at hk'
+      rcases hk' with rfl | hk'
+      · exact Nat.le_refl _
+      · have := hmax k' hk'; omega
+    · split at hb
+      · rename_i hk; subst hk; cases hb
+        right
+        refine ⟨hlt, hnn, fun k' hk' hlt' => ?_⟩
+        rw [hkeys] at hk'
+        rcases hk' with rfl | hk'
+        · exact Nat.le_refl _
+        · have := hmax k' hk'; omega
+      · rename_i hk1 hk2
+        have hkmem : k ∈ SMap.keys s.db := SMap.get_some_mem _ _ _ hb
+        have hkle := hmax k hkmem
+        rcases h.link k b hb with ⟨_, h2⟩ | ⟨h1, h2, h3⟩
+        · have := h2 lid hlidmem; omega
+        · right
+          refine ⟨h1, h2, fun k' hk' hlt' => ?_⟩
+          rw [hkeys] at hk'
+          rcases hk' with rfl | hk'
+          · have := h3 lid hlidmem (by omega); omega
+          · exact h3 k' hk' hlt'
+  · intro k c hc
+    rw [hc', SMap.get_erase] at hc
+    split at hc
+    · cases hc
+    · rename_i hk
+      have hb := h.cacheOk k c hc
+      have hkle := hmax k (SMap.get_some_mem _ _ _ hb)
+      rw [hget, if_neg (by omega), if_neg hk]; exact hb
+
+theorem C08_inv_delete (s s' : OS) (id : Nat) (h : Inv s) (hid : id ≠ 0)
+    (h0 : 0 ∈ SMap.keys s.db) (hd : s.delete id = some s') : Inv s' ∧ 0 ∈ SMap.keys s'.db := by
+  obtain ⟨lid, lb, hlast, hlb, hmax, hcase⟩ := delete_effect s s' id h hd
+  have hlidmem : lid ∈ SMap.keys s.db := SMap.get_some_mem _ _ _ hlb
+  obtain ⟨lid', lb', hl1, hl2, hl3, hl4, hl5⟩ := h.lastIs
+  rw [hlast] at hl2; cases hl2
+  obtain ⟨hg', _⟩ := SMap.getLast_max _ h.sorted _ _ hl1
+  rw [hlb] at hg'; cases hg'
+  rcases hcase with ⟨hne, rfl⟩ | ⟨rfl, pk, mb, hpk, hpklt, hshape, rfl⟩
+  · -- plain erase
+    have hget : ∀ k, SMap.get (SMap.erase s.db id) k = if k = id then none else SMap.get s.db k :=
+      fun k => SMap.get_erase _ _ _
+    refine ⟨⟨SMap.sorted_erase _ _ h.sorted, ?_, ?_, ?_, ?_⟩, ?_⟩
+    · intro k b hb
+      simp only [hget] at hb
+      split at hb
+      · cases hb
+      · exact h.keyId k b hb
+    · refine ⟨lid, lb, ?_, hlast, hl3, hl4, hl5⟩
+      apply SMap.getLast_of_max _ (SMap.sorted_erase _ _ h.sorted)
+      · simp only [hget]; rw [if_neg (Ne.symm hne)]; exact hlb
+      · intro k' hk'
+        exact hmax k' ((SMap.keys_erase_mem _ _ _).1 hk').1
+    · intro k b hb
+      simp only [hget] at hb
+      split at hb
+      · cases hb
+      · rcases h.link k b hb with ⟨h1, h2⟩ | ⟨h1, h2, h3⟩
+        · left; exact ⟨h1, fun k' hk' => h2 k' ((SMap.keys_erase_mem _ _ _).1 hk').1⟩
+        · right; exact ⟨h1, h2, fun k' hk' => h3 k' ((SMap.keys_erase_mem _ _ _).1 hk').1⟩
+    · intro k c hc
+      simp only [SMap.get_erase] at hc
+      split at hc
+      · cases hc
+      · rename_i hk
+        simp only [hget]; rw [if_neg hk]; exact h.cacheOk k c hc
+    · exact (SMap.keys_erase_mem _ _ _).2 ⟨h0, Ne.symm hid⟩
+  · -- tail deletion: re-point to the predecessor
+    have hget : ∀ k, SMap.get (SMap.erase (SMap.put s.db pk ⟨mb.msgs, noNext⟩) id) k =
+        if k = id then none else if k = pk then some ⟨mb.msgs, noNext⟩ else SMap.get s.db k :=
+      fun k => by rw [SMap.get_erase, SMap.get_put]
+    have hpkmem : pk ∈ SMap.keys s.db := SMap.get_some_mem _ _ _ hpk
+    have hkeys : ∀ k, k ∈ SMap.keys (SMap.erase (SMap.put s.db pk ⟨mb.msgs, noNext⟩) id) ↔
+        k ∈ SMap.keys s.db ∧ k ≠ id := by
+      intro k
+      rw [SMap.keys_erase_mem, SMap.keys_put_mem]
+      constructor
+      · rintro ⟨hk | hk, hne⟩
+        · subst hk; exact ⟨hpkmem, hne⟩
+        · exact ⟨hk, hne⟩
+      · rintro ⟨hk, hne⟩; exact ⟨Or.inr hk, hne⟩
+    have hsorted := SMap.sorted_erase _ id (SMap.sorted_put _ pk ⟨mb.msgs, noNext⟩ h.sorted)
+    have hnewmax : ∀ k' ∈ SMap.keys (SMap.erase (SMap.put s.db pk ⟨mb.msgs, noNext⟩) id),
+        k' ≤ pk := by
+      intro k' hk'
+      obtain ⟨hk1, hk2⟩ := (hkeys k').1 hk'
+      rcases hshape k' hk1 with h1 | h1
+      · exact absurd h1 hk2
+      · exact h1
+    have hpkid := h.keyId pk mb hpk
+    refine ⟨⟨hsorted, ?_, ?_, ?_, ?_⟩, ?_⟩
+    · intro k b hb
+      simp only [hget] at hb
+      split at hb
+      · cases hb
+      · split at hb
+        · rename_i hk; subst hk; cases hb; exact hpkid
+        · exact h.keyId k b hb
+    · refine ⟨pk, ⟨mb.msgs, noNext⟩, ?_, hpkid.1, rfl, rfl, rfl⟩
+      apply SMap.getLast_of_max _ hsorted _ _ _ hnewmax
+      rw [hget, if_neg (by omega), if_pos rfl]
+    · intro k b hb
+      have hkmem := (hkeys k).1 (SMap.get_some_mem _ _ _ hb)
+      simp only [hget] at hb
+      split at hb
+      · cases hb
+      · split at hb
+        · rename_i hk; subst hk; cases hb
+          left; exact ⟨rfl, hnewmax⟩
+        · rename_i hk1 hk2
+          have hkle : k ≤ pk := by
+            rcases hshape k hkmem.1 with h1 | h1
+            · exact absurd h1 hk1
+            · exact h1
+          rcases h.link k b hb with ⟨_, h2⟩ | ⟨h1, h2, h3⟩
+          · have := h2 id hlidmem; omega
+          · right; exact ⟨h1, h2, fun k' hk' => h3 k' ((hkeys k').1 hk').1⟩
+    · intro k c hc
+      simp only [SMap.get_erase] at hc
+      split at hc
+      · cases hc
+      · split at hc
+        · cases hc
+        · rename_i hk hkp
+          rw [hget, if_neg hk, if_neg hkp]; exact h.cacheOk k c hc
+    · exact (hkeys 0).2 ⟨h0, Ne.symm hid⟩
+
+theorem C08_inv_get (s : OS) (id : Nat) (h : Inv s) :
+    Inv (s.get id).1 ∧ (s.get id).1.db = s.db := by
+  obtain ⟨i1, d1, _, _⟩ := getU_spec s id h
+  exact ⟨i1, d1⟩
+
+/-- the abstract content of the stream: a plain map from batch id to messages -/
+def contents (s : OS) : SMap (List Msg) := s.db.map (fun e => (e.1, e.2.msgs))
+
+theorem contents_get (s : OS) (k : Nat) :
+    SMap.get (contents s) k = (SMap.get s.db k).map (·.msgs) :=
+  SMap.get_map (fun b : Batch => b.msgs) s.db k
+
+/-- `Get` returns exactly what is stored under that id -/
+theorem C08_get (s : OS) (id : Nat) (h : Inv s) : (s.get id).2 = SMap.get (contents s) id := by
+  obtain ⟨_, _, _, sp⟩ := getU_spec s id h
+  rw [contents_get]
+  show (s.getU id).2.map (·.msgs) = _
+  generalize (s.getU id).2 = r at sp
+  cases r with
+  | none => simp only at sp; rw [(SMap.get_none_iff _ _).2 sp]
+  | some c => simp only at sp; rw [sp]
+
+theorem C08_contents_add (s s' : OS) (msgs : List Msg) (m : Msg) (h : Inv s) (hok : AddOk s msgs)
+    (hm : msgs.head? = some m) (ha : s.add msgs = some s') :
+    ∀ k, SMap.get (contents s') k = if k = m.id then some msgs else SMap.get (contents s) k := by
+  obtain ⟨m', lid, lb, hm', _, hlb, hlbm, _, _, _, _, _, hget, _, _⟩ := add_effect s s' msgs h hok ha
+  rw [hm] at hm'; cases hm'
+  intro k
+  rw [contents_get, contents_get, hget]
+  split
+  · rfl
+  · split
+    · rename_i hk; subst hk; rw [hlb]; simp [hlbm]
+    · rfl
+
+set_option linter.unusedVariables false in
+theorem C08_contents_delete (s s' : OS) (id : Nat) (h : Inv s) (hid : id ≠ 0)
+    (h0 : 0 ∈ SMap.keys s.db) (hd : s.delete id = some s') :
+    ∀ k, SMap.get (contents s') k = if k = id then none else SMap.get (contents s) k := by
+  obtain ⟨lid, lb, _, _, _, hcase⟩ := delete_effect s s' id h hd
+  intro k
+  rw [contents_get, contents_get]
+  rcases hcase with ⟨_, rfl⟩ | ⟨rfl, pk, mb, hpk, hpklt, _, rfl⟩
+  · simp only [SMap.get_erase]
+    split <;> rfl
+  · simp only [SMap.get_erase, SMap.get_put]
+    split
+    · rfl
+    · split
+      · rename_i hk; subst hk; rw [hpk]; rfl
+      · rfl
+
+theorem C08_delete_no_panic (s : OS) (id : Nat) (h : Inv s) (hid : id ≠ 0)
+    (h0 : 0 ∈ SMap.keys s.db) : ∃ s', s.delete id = some s' :=
+  delete_no_panic s id h hid h0
+
+/-- phase 1: returns the least stored batch above `x`, or decides to wait behind the greatest
+key only when nothing above `x` is stored; never panics; `db` unchanged -/
+theorem C08_p1 (s : OS) (x : Nat) (h : Inv s) :
+    Inv (s.getNextP1 x).1 ∧ (s.getNextP1 x).1.db = s.db ∧
+    match (s.getNextP1 x).2 with
+    | .ret m => leastAbove s x m
+    | .park cur => cur ∈ SMap.keys s.db ∧ cur ≤ x ∧ noneAbove s x
+    | .panic => False := by
+  obtain ⟨i, d, sp⟩ := p1_spec s x h
+  refine ⟨i, d, ?_⟩
+  generalize (s.getNextP1 x).2 = r at sp
+  cases r with
+  | ret m => exact sp
+  | park c => exact ⟨sp.1, sp.2.1, fun k hk => Nat.le_trans (sp.2.2 k hk) sp.2.1⟩
+  | panic => exact sp
+
+/-- one wait-loop stretch entered behind any `cur ≤ x` (which may have been deleted meanwhile):
+returns the least stored batch above `x`; blocks only when nothing above `x` is stored; starts
+over only if `cur` is gone or the chain from `cur` reaches, at or below `x`, a batch whose
+successor was deleted; never panics -/
+theorem C08_p2 (s : OS) (x cur : Nat) (h : Inv s) (hc : cur ≤ x) :
+    Inv (s.getNextP2 x (s.db.length + 1) cur).1 ∧
+    (s.getNextP2 x (s.db.length + 1) cur).1.db = s.db ∧
+    match (s.getNextP2 x (s.db.length + 1) cur).2 with
+    | .ret m => leastAbove s x m
+    | .wait c => c ∈ SMap.keys s.db ∧ c ≤ x ∧ noneAbove s x
+    | .restart => cur ∉ SMap.keys s.db ∨ ∃ c, cur ≤ c ∧ c ≤ x ∧ Dangling s c
+    | .panic => False := by
+  obtain ⟨i, d, sp⟩ := p2_spec s x cur h hc
+  refine ⟨i, d, ?_⟩
+  generalize (s.getNextP2 x (s.db.length + 1) cur).2 = r at sp
+  cases r <;> exact sp
+
+/-- phase 1 followed immediately (no interference) by the wait-loop stretch blocks behind the
+batch phase 1 chose -/
+theorem C08_p1_then_p2_waits (s : OS) (x cur : Nat) (h : Inv s)
+    (hp : (s.getNextP1 x).2 = .park cur) :
+    ((s.getNextP1 x).1.getNextP2 x ((s.getNextP1 x).1.db.length + 1) cur).2 = .wait cur := by
+  obtain ⟨i, d, sp⟩ := p1_spec s x h
+  rw [hp] at sp
+  obtain ⟨h1, _, h3⟩ := sp
+  exact p2_of_max _ x _ cur i (by rw [d]; exact h1) (by rw [d]; exact h3)
+
+/-- … in particular it never restarts (or panics): a restart cannot loop without interference -/
+theorem C08_p1_then_p2_no_restart (s : OS) (x cur : Nat) (h : Inv s)
+    (hp : (s.getNextP1 x).2 = .park cur) :
+    (∃ c, ((s.getNextP1 x).1.getNextP2 x ((s.getNextP1 x).1.db.length + 1) cur).2 = .wait c) ∨
+    (∃ m, ((s.getNextP1 x).1.getNextP2 x ((s.getNextP1 x).1.db.length + 1) cur).2 = .ret m) :=
+  Or.inl ⟨cur, C08_p1_then_p2_waits s x cur h hp⟩
+
+/-! ### The concurrent system -/
+
+def ThreadOk (os : OS) (t : RThread) : Prop :=
+  (t.pc ≠ .crashed) ∧ (∀ c, t.pc = .ready (some c) → c ≤ t.x) ∧
+  (∀ c, t.pc = .waiting c → c ≤ t.x ∧ noneAbove os t.x)
+
+/-- the system-level invariant over every interleaving -/
+def SysInv (σ : Sys) : Prop :=
+  Inv σ.os ∧ 0 ∈ SMap.keys σ.os.db ∧ ∀ t ∈ σ.rs, (t.pc ≠ .crashed) ∧
+    (∀ c, t.pc = .ready (some c) → c ≤ t.x) ∧
+    (∀ c, t.pc = .waiting c → c ≤ t.x ∧ noneAbove σ.os t.x)
+
+theorem ThreadOk_congr (s s' : OS) (h : s'.db = s.db) (t : RThread) (ht : ThreadOk s t) :
+    ThreadOk s' t :=
+  ⟨ht.1, ht.2.1, fun c hc => ⟨(ht.2.2 c hc).1, (noneAbove_congr s s' h _).2 (ht.2.2 c hc).2⟩⟩
+
+theorem ThreadOk_signal (s s' : OS) (t : RThread) (ht : ThreadOk s t) : ThreadOk s' (signal t) := by
+  unfold signal
+  cases hpc : t.pc with
+  | waiting c =>
+    refine ⟨by simp, ?_, by simp⟩
+    intro c' hc'
+    simp only [PC.ready.injEq, Option.some.injEq] at hc'
+    subst hc'
+    exact (ht.2.2 c hpc).1
+  | ready c =>
+    refine ⟨ht.1, ht.2.1, ?_⟩
+    intro c' hc'; rw [hpc] at hc'; cases hc'
+  | returned m =>
+    refine ⟨ht.1, ht.2.1, ?_⟩
+    intro c' hc'; rw [hpc] at hc'; cases hc'
+  | crashed => exact absurd hpc ht.1
+
+/-- `Delete` only removes keys -/
+theorem delete_keys (s s' : OS) (id : Nat) (h : Inv s) (hd : s.delete id = some s') :
+    ∀ k ∈ SMap.keys s'.db, k ∈ SMap.keys s.db := by
+  obtain ⟨lid, lb, _, _, _, hcase⟩ := delete_effect s s' id h hd
+  rcases hcase with ⟨_, rfl⟩ | ⟨rfl, pk, mb, hpk, _, _, rfl⟩
+  · exact fun k hk => ((SMap.keys_erase_mem _ _ _).1 hk).1
+  · intro k hk
+    have := ((SMap.keys_erase_mem _ _ _).1 hk).1
+    rcases (SMap.keys_put_mem _ _ _ _).1 this with rfl | h1
+    · exact SMap.get_some_mem _ _ _ hpk
+    · exact h1
+
+theorem ThreadOk_delete (s s' : OS) (id : Nat) (h : Inv s)
+    (hd : s.delete id = some s') (t : RThread) (ht : ThreadOk s t) : ThreadOk s' t := by
+  have hsub := delete_keys s s' id h hd
+  refine ⟨ht.1, ht.2.1, fun c hc => ?_⟩
+  obtain ⟨hle, hw⟩ := ht.2.2 c hc
+  exact ⟨hle, fun k hk => hw k (hsub k hk)⟩
+
+/-- one reader step: the invariant is kept, `db` is untouched, the reader stays well-formed -/
+theorem reader_spec (os : OS) (t : RThread) (c : Option Nat) (h : Inv os) (ht : ThreadOk os t)
+    (hpc : t.pc = .ready c) :
+    Inv (readerStep os t).1 ∧ (readerStep os t).1.db = os.db ∧
+      ThreadOk (readerStep os t).1 (readerStep os t).2 := by
+  unfold readerStep
+  rw [hpc]
+  cases c with
+  | none =>
+    simp only
+    obtain ⟨i1, d1, sp⟩ := p1_spec os t.x h
+    generalize os.getNextP1 t.x = p at i1 d1 sp ⊢
+    obtain ⟨os1, r⟩ := p
+    cases r with
+    | ret m => exact ⟨i1, d1, by simp, by simp, by simp⟩
+    | park c =>
+      refine ⟨i1, d1, by simp, ?_, by simp⟩
+      intro c' hc'
+      simp only [PC.ready.injEq, Option.some.injEq] at hc'
+      subst hc'; exact sp.2.1
+    | panic => exact absurd sp id
+  | some c =>
+    simp only
+    have hc := ht.2.1 c hpc
+    obtain ⟨i1, d1, sp⟩ := p2_spec os t.x c h hc
+    generalize os.getNextP2 t.x (os.db.length + 1) c = p at i1 d1 sp ⊢
+    obtain ⟨os1, r⟩ := p
+    cases r with
+    | ret m => exact ⟨i1, d1, by simp, by simp, by simp⟩
+    | wait c' =>
+      refine ⟨i1, d1, ?_⟩
+      simp only at d1
+      obtain ⟨_, s2, s3⟩ := sp
+      cases hcan : t.cancelled with
+      | true => exact ⟨by simp, by simp, by simp⟩
+      | false =>
+        refine ⟨by simp, by simp, ?_⟩
+        intro c'' hc''
+        simp only [Bool.false_eq_true, ↓reduceIte, PC.waiting.injEq] at hc''
+        subst hc''
+        exact ⟨s2, (noneAbove_congr os os1 d1 _).2 s3⟩
+    | restart => exact ⟨i1, d1, by simp, by simp, by simp⟩
+    | panic => exact absurd sp id
+
+theorem C08_reach_inv (σ : Sys) (h : Reach σ) : SysInv σ := by
+  induction h with
+  | init => exact ⟨C08_inv_init, by simp [OS.init, SMap.keys], fun t ht => by simp at ht⟩
+  | step σ σ' _ hs ih =>
+    obtain ⟨hi, h0, hts⟩ := ih
+    cases hs with
+    | add msgs os' hok ha =>
+      have hi' := C08_inv_add _ _ _ hi hok ha
+      obtain ⟨_, _, _, _, _, _, _, _, _, _, _, _, _, hkeys, _⟩ := add_effect _ _ _ hi hok ha
+      refine ⟨hi', (hkeys 0).2 (Or.inr h0), fun t ht => ?_⟩
+      obtain ⟨t0, ht0, rfl⟩ := List.mem_map.1 ht
+      exact ThreadOk_signal _ _ _ (hts t0 ht0)
+    | delete id os' hid hd =>
+      obtain ⟨hi', h0'⟩ := C08_inv_delete _ _ _ hi hid h0 hd
+      exact ⟨hi', h0', fun t ht => ThreadOk_delete _ _ _ hi hd t (hts t ht)⟩
+    | get id =>
+      obtain ⟨hi', hdb⟩ := C08_inv_get σ.os id hi
+      refine ⟨hi', ?_, fun t ht => ThreadOk_congr _ _ hdb t (hts t ht)⟩
+      show 0 ∈ SMap.keys (σ.os.get id).1.db
+      rw [hdb]; exact h0
+    | interrupt =>
+      refine ⟨hi, h0, fun t ht => ?_⟩
+      obtain ⟨t0, ht0, rfl⟩ := List.mem_map.1 ht
+      exact ThreadOk_signal _ _ _ (hts t0 ht0)
+    | call x =>
+      refine ⟨hi, h0, fun t ht => ?_⟩
+      rcases List.mem_append.1 ht with ht | ht
+      · exact hts t ht
+      · simp only [List.mem_singleton] at ht
+        subst ht
+        exact ⟨by simp, by simp, by simp⟩
+    | cancel i t hi' =>
+      refine ⟨hi, h0, fun t' ht' => ?_⟩
+      rcases List.mem_or_eq_of_mem_set ht' with ht' | rfl
+      · exact hts t' ht'
+      · exact hts t (List.mem_of_getElem? hi')
+    | reader i t c hi' hpc =>
+      have htok : ThreadOk σ.os t := hts t (List.mem_of_getElem? hi')
+      obtain ⟨i1, d1, tok⟩ := reader_spec σ.os t c hi htok hpc
+      refine ⟨i1, ?_, fun t' ht' => ?_⟩
+      · show 0 ∈ SMap.keys (readerStep σ.os t).1.db
+        rw [d1]; exact h0
+      · rcases List.mem_or_eq_of_mem_set ht' with ht' | rfl
+        · exact ThreadOk_congr _ _ d1 t' (hts t' ht')
+        · exact tok
+
+/-! ### Corollaries, for every reachable state / every step -/
+
+/-- a reader never stays blocked although a successor exists -/
+theorem C08_no_lost_wakeup (σ : Sys) (h : Reach σ) (t : RThread) (ht : t ∈ σ.rs) (c : Nat)
+    (hw : t.pc = .waiting c) : noneAbove σ.os t.x :=
+  (((C08_reach_inv σ h).2.2 t ht).2.2 c hw).2
+
+theorem C08_never_panics (σ : Sys) (h : Reach σ) (t : RThread) (ht : t ∈ σ.rs) :
+    t.pc ≠ .crashed :=
+  ((C08_reach_inv σ h).2.2 t ht).1
+
+/-- what a reader returns is the least stored batch above `x` at the instant of that step -/
+theorem C08_returns_least (σ : Sys) (h : Reach σ) (i : Nat) (t : RThread) (c : Option Nat)
+    (hi : σ.rs[i]? = some t) (hr : t.pc = .ready c) (m : List Msg)
+    (hret : (readerStep σ.os t).2.pc = .returned (some m)) : leastAbove σ.os t.x m := by
+  obtain ⟨hinv, _, hts⟩ := C08_reach_inv σ h
+  have htok := hts t (List.mem_of_getElem? hi)
+  unfold readerStep at hret
+  rw [hr] at hret
+  cases c with
+  | none =>
+    simp only at hret
+    obtain ⟨_, _, sp⟩ := p1_spec σ.os t.x hinv
+    generalize σ.os.getNextP1 t.x = p at sp hret
+    obtain ⟨os1, r⟩ := p
+    cases r with
+    | ret m' =>
+      simp only [PC.returned.injEq, Option.some.injEq] at hret
+      subst hret; exact sp
+    | park c => simp at hret
+    | panic => simp at hret
+  | some c =>
+    simp only at hret
+    obtain ⟨_, _, sp⟩ := p2_spec σ.os t.x c hinv (htok.2.1 c hr)
+    generalize σ.os.getNextP2 t.x (σ.os.db.length + 1) c = p at sp hret
+    obtain ⟨os1, r⟩ := p
+    cases r with
+    | ret m' =>
+      simp only [PC.returned.injEq, Option.some.injEq] at hret
+      subst hret; exact sp
+    | wait c' =>
+      simp only at hret
+      split at hret <;> simp at hret
+    | restart => simp at hret
+    | panic => simp at hret
+
+set_option linter.unusedVariables false in
+/-- once cancelled and woken a reader does not block again -/
+theorem C08_cancelled_returns (σ : Sys) (h : Reach σ) (i : Nat) (t : RThread) (c : Nat)
+    (hi : σ.rs[i]? = some t) (hr : t.pc = .ready (some c)) (hcan : t.cancelled = true) :
+    ∀ c', (readerStep σ.os t).2.pc ≠ .waiting c' := by
+  intro c'
+  unfold readerStep
+  rw [hr]
+  simp only
+  generalize σ.os.getNextP2 t.x (σ.os.db.length + 1) c = p
+  obtain ⟨os1, r⟩ := p
+  cases r <;> simp [hcan]
+
+set_option linter.unusedVariables false in
+/-- `Add`/`Interrupt` make every waiter runnable -/
+theorem C08_wakes_on_add (σ : Sys) (msgs : List Msg) (os' : OS) (t : RThread) (ht : t ∈ σ.rs)
+    (c : Nat) (hw : t.pc = .waiting c) : (signal t).pc = .ready (some c) := by
+  unfold signal; rw [hw]
+
+/-! ### Regression: the former lost wake-up
+
+Schedule: `GetNext(0)` parks behind the sentinel on the fresh stream; `Add 5`; `Add 7` (both
+wake the reader, which does not run yet); `Delete 5`; now the reader runs its wait-loop
+stretch: batch 0 has `next = 5`, 5 is gone.  The unrepaired loop blocked here although batch 7
+is stored; the repaired loop starts over, and phase 1 returns batch 7. -/
+namespace Regression
+
+def msg (n : Nat) : List Msg := [⟨n, 0, [], []⟩]
+def t0 : RThread := ⟨0, false, .ready none⟩
+def t1 : RThread := ⟨0, false, .ready (some 0)⟩
+def os2 : OS := ⟨[(0, sentinel)], sentinel, [(0, sentinel)]⟩
+def os3 : OS := ⟨[(0, ⟨msg 0, 5⟩), (5, ⟨msg 5, noNext⟩)], ⟨msg 5, noNext⟩, []⟩
+def os4 : OS := ⟨[(0, ⟨msg 0, 5⟩), (5, ⟨msg 5, 7⟩), (7, ⟨msg 7, noNext⟩)], ⟨msg 7, noNext⟩, []⟩
+def os5 : OS := ⟨[(0, ⟨msg 0, 5⟩), (7, ⟨msg 7, noNext⟩)], ⟨msg 7, noNext⟩, []⟩
+def os6 : OS := ⟨[(0, ⟨msg 0, 5⟩), (7, ⟨msg 7, noNext⟩)], ⟨msg 7, noNext⟩, [(0, ⟨msg 0, 5⟩)]⟩
+
+theorem r1 : Reach ⟨OS.init, [t0]⟩ := Reach.step _ _ Reach.init (Step.call ⟨OS.init, []⟩ 0)
+theorem r2 : Reach ⟨os2, [t1]⟩ := Reach.step _ _ r1 (Step.reader ⟨OS.init, [t0]⟩ 0 t0 none rfl rfl)
+theorem r3 : Reach ⟨os3, [t1]⟩ :=
+  Reach.step _ _ r2 (Step.add ⟨os2, [t1]⟩ (msg 5) os3 ⟨_, rfl, by decide, by decide⟩ rfl)
+theorem r4 : Reach ⟨os4, [t1]⟩ :=
+  Reach.step _ _ r3 (Step.add ⟨os3, [t1]⟩ (msg 7) os4 ⟨_, rfl, by decide, by decide⟩ rfl)
+theorem r5 : Reach ⟨os5, [t1]⟩ :=
+  Reach.step _ _ r4 (Step.delete ⟨os4, [t1]⟩ 5 os5 (by decide) rfl)
+
+/-- the wait-loop stretch now starts over … -/
+example : readerStep os5 t1 = (os6, t0) := rfl
+/-- … and phase 1 then returns batch 7 -/
+example : (readerStep os6 t0).2.pc = .returned (some (msg 7)) := rfl
+
+theorem r7 : Reach ⟨(readerStep os6 t0).1, [(readerStep os6 t0).2]⟩ :=
+  Reach.step _ _ (Reach.step _ _ r5 (Step.reader ⟨os5, [t1]⟩ 0 t1 (some 0) rfl rfl))
+    (Step.reader ⟨os6, [t0]⟩ 0 t0 none rfl rfl)
+
+end Regression
+
 end Robust.Props.C08
